@@ -21,7 +21,7 @@ func init() {
 		ID:  "C20",
 		Run: runC20,
 		Decided: "the size counter and the primary datastore handle are touched only by functions that run on the worker goroutine (plus Close after the worker ended) (R1); both workers answer every operation kind with exactly one response on a capacity-1 channel (R2); the reset commit follows the partial order final drain < alt sync < marker write < marker sync < in-memory swap < teardown on the success path, and a failed drain or alt sync clears success (R3); " +
-			"a failed marker write aborts the swap (R4a; R4b — a failed marker sync must not destroy the old slot — is a known finding); during a reset every Put is buffered in full before it is written and fails if buffering fails, the alternate slot is written only under its token, and every failed alternate-slot write aborts ResetCids (R5); the size key is deleted on every path of loadSize and written only by persistSize from Close (R6); a key is reported new iff Has was false and its batch Put succeeded, and the size grows only after the commit (R7); per-call de-duplication sets are keyed by value-comparable types (R8).",
+			"a failed marker write aborts the swap (R4a; R4b — a failed marker sync must not destroy the old slot — is a known finding); during a reset every Put is buffered in full before it is written and fails if buffering fails, the alternate slot is written only under its token, and every failed alternate-slot write aborts ResetCids (R5); the size key is deleted on every path of loadSize and written only by persistSize from Close (R6); a key is reported new iff Has was false and its batch Put succeeded, and the size grows only after the commit (R7); per-call de-duplication sets are keyed by value-comparable types (R8). Added after the seeded rounds: bufferKeys returns nil only with all keys staged, prepareAltDs always empties the shared slot (R5).",
 		NotDecided: "exactness of prefix queries (bit arithmetic of dsKey/decodeKey); crash atomicity of the underlying datastore's batches; R4b (known finding D10b).",
 	})
 }
